@@ -1,8 +1,7 @@
 import Geo.Props.C14
-open Geo
-#print axioms T14_hat_is_code
-#print axioms T14_1_line_reduction
-#print axioms T14_2_decomposition
-#print axioms T14_3_secant
-#print axioms T14_5_tangent
-#print axioms T14_5_polar_reciprocity
+#print axioms Geo.T14_hat_is_code
+#print axioms Geo.T14_1_line_reduction
+#print axioms Geo.T14_2_decomposition
+#print axioms Geo.T14_3_secant
+#print axioms Geo.T14_5_tangent
+#print axioms Geo.T14_5_polar_reciprocity
